@@ -2588,6 +2588,10 @@ impl SctpInner {
     }
 
     pub async fn close_data_channel(&self, channel_id: u16) -> Result<()> {
+        #[cfg(rustrtc_verif)]
+        crate::verif_hooks::sctp::trace(self.local_port, || {
+            crate::verif_hooks::sctp::Ev::Mark("close_dc", vec![channel_id as u64])
+        });
         // 1. Find the channel and set state to Closing
         {
             let channels = self.data_channels.lock();
